@@ -45,12 +45,51 @@ try:
 except AttributeError:
     pass
 
-re_paramname = re.compile(
-    r'^'
-    r'\s*([^:=]+)'      # param name
-    r'\s*(?::(.+?))?'    # annotation
-    r'\s*(?:=(.+))?'   # default value
-    r'$')
+def _toplevel(text, chars):
+    """Yields the indexes of the characters of ``text`` that are in ``chars``
+    and sit neither inside brackets nor inside a string literal."""
+    depth = 0
+    quote = None
+    skip = False
+    for i, c in enumerate(text):
+        if skip:
+            skip = False
+        elif quote is not None:
+            if c == '\\':
+                skip = True
+            elif c == quote:
+                quote = None
+        elif c in '\'"':
+            quote = c
+        elif c in '([{':
+            depth += 1
+        elif c in ')]}':
+            depth -= 1
+        elif not depth and c in chars:
+            yield i
+
+def _split_params(sig_str):
+    start = 0
+    for i in _toplevel(sig_str, ','):
+        yield sig_str[start:i]
+        start = i + 1
+    yield sig_str[start:]
+
+def _split_param(param):
+    """Splits ``name: annotation = default`` into its three parts;
+    missing parts are `None`."""
+    annotation = default = None
+    marks = list(_toplevel(param, ':='))
+    eq = next((i for i in marks if param[i] == '='), None)
+    colon = next((i for i in marks if param[i] == ':'), None)
+    if colon is not None and eq is not None and eq < colon:
+        colon = None
+    if eq is not None:
+        param, default = param[:eq], param[eq+1:]
+    if colon is not None:
+        param, annotation = param[:colon], param[colon+1:]
+    return param.strip(), annotation or None, default or None
+
 re_posoarg = re.compile(r'^<(.*)>$')
 
 def read_sig(sig_str, ret=_util.UNSET, *,
@@ -72,10 +111,10 @@ def read_sig(sig_str, ret=_util.UNSET, *,
     varkwargs = None
     chevron_index = None
     default_index = None
-    for i, param in enumerate(sig_str.split(',')):
+    for i, param in enumerate(_split_params(sig_str)):
         if not param:
             continue
-        arg, annotation, default = re_paramname.match(param).groups()
+        arg, annotation, default = _split_param(param)
         insert = arg
         is_posoarg = re_posoarg.match(arg)
         if is_posoarg:
